@@ -70,7 +70,7 @@ Ending == ending' = TRUE /\ UNCHANGED <<ver, d, ss>>
 \* command counters: every well-formed request counts; a malformed one that carries a valid command byte may
 Lower(c) == Cardinality({s \in Sessions : d[s].valid /\ d[s].cmd = c})
 \* be counted, under the command its byte names (a v4 request with command byte 3 counts as UDP ASSOCIATE)
-Upper(c) == Cardinality({s \in Sessions : d[s].cmdname = c /\ (d[s].reaches_request \/ ss[s].replies > 0)})
+Upper(c) == Cardinality({s \in Sessions : d[s].cmdname \in {c, "any"} /\ (d[s].reaches_request \/ ss[s].replies > 0)})
 CountsOK(c, n) == n >= Lower(c) /\ n <= Upper(c)
 
 \* end of the run: every well-formed session got its reply; successful ones relayed everything
